@@ -198,8 +198,24 @@ namespace
                 return;
             std::size_t sz = static_cast<std::size_t>(c.arg(2, 16));
             std::size_t al = static_cast<std::size_t>(c.arg(3, 8));
+            // mode 0: member allocate(); 1: allocator_traits node; 2: allocator_traits array of cnt elements
+            long long   mode = c.arg(4, 0);
+            std::size_t cnt  = static_cast<std::size_t>(c.arg(5, 1));
             void*       p  = nullptr;
-            std::string r  = classify([&] { p = scopes.back()->allocate(sz, al); });
+            using ttraits  = fm::allocator_traits<fm::temporary_allocator>;
+            std::string r  = classify(
+                [&]
+                {
+                    if (mode == 1)
+                        p = ttraits::allocate_node(*scopes.back(), sz, al);
+                    else if (mode == 2)
+                    {
+                        p = ttraits::allocate_array(*scopes.back(), cnt, sz, al);
+                        sz *= cnt; // the whole array is filled and checked
+                    }
+                    else
+                        p = scopes.back()->allocate(sz, al);
+                });
             int         id = 0;
             if (p)
             {
